@@ -134,6 +134,7 @@ func main() {
 	replayPath := flag.String("replay", "", "replay a recorded counterexample natively")
 	noSelf := flag.Bool("noselftest", false, "skip the concrete differential self-test")
 	budget := flag.Duration("budget", 0, "wall-clock budget for exploration (0 = none)")
+	hbudget := flag.Duration("hbudget", -1, "wall-clock budget per harness, for the deep pass of the thorough tier (default 5m; 0 = none)")
 	cpuprof := flag.String("cpuprofile", "", "write a CPU profile")
 	flag.Parse()
 	if *cpuprof != "" {
@@ -150,7 +151,7 @@ func main() {
 	if cfg.TimeoutMs == 0 {
 		cfg.TimeoutMs = 10000
 		if cfg.Tier == "thorough" {
-			cfg.TimeoutMs = 60000
+			cfg.TimeoutMs = 25000
 		}
 	}
 	cfg.ZTimeoutMs = cfg.TimeoutMs
@@ -169,6 +170,13 @@ func main() {
 	}
 	if *budget > 0 {
 		cfg.Deadline = time.Now().Add(*budget)
+	}
+	cfg.HBudget = *hbudget
+	if *hbudget < 0 {
+		cfg.HBudget = 0
+		if cfg.Tier == "thorough" {
+			cfg.HBudget = 5 * time.Minute
+		}
 	}
 	if os.Getenv("GOGC") == "" {
 		debug.SetGCPercent(600)
@@ -195,6 +203,15 @@ func main() {
 		}
 	}
 	sort.Slice(hs, func(i, j int) bool { return hs[i].Name < hs[j].Name })
+	if cfg.Tier == "thorough" {
+		// two passes per harness: the quick bounds exhaustively (with the thorough solver policy), then the larger
+		// bounds under the per-harness time budget
+		var two []*Harness
+		for _, h := range hs {
+			two = append(two, h, &Harness{Name: h.Name + "@deep", Prop: h.Prop, Fn: h.Fn, Deep: true, Base: h})
+		}
+		hs = two
+	}
 	nb := &nativeBuild{root: root, names: names, race: cfg.Prop == "C17"}
 	defer nb.cleanup()
 
